@@ -1,0 +1,118 @@
+//go:build verif
+
+// Contracts for package scorch: the introducer (read by /verif/gocv; comment-only effect with the
+// verif tag off).
+
+package scorch
+
+// ---------------------------------------------------------------------------
+// C01 / C20 / C08: introducing a batch's segment builds the next root snapshot: offsets are the
+// running document counts of the segments kept (what the readers' global ids rely on), obsoleted
+// documents are OR-ed into each segment's deleted bitmap and the bitmap is closed under nested
+// children, segments without live documents are dropped, the new segment comes last, and the
+// root is swapped under the root lock, which is released on every path.
+// ---------------------------------------------------------------------------
+
+// ---- bitmaps (github.com/RoaringBitmap/roaring) and segments (scorch_segment_api), assumed ----
+// membership in a bitmap; a nil bitmap has no members
+//@ uf bhas(b *roaring.Bitmap, x uint32) bool
+//@ spec bin(b *roaring.Bitmap, x uint32) bool = b != nil && bhas(b, x)
+//@ assume func roaring.Or(x1, x2)
+//@   requires x1 != nil && x2 != nil
+//@   ensures result != nil && fresh(result) && all(x, uint32, iff(bhas(result, x), bhas(x1, x) || bhas(x2, x)))
+//@ assume func roaring.Bitmap.IsEmpty(rb)
+//@   requires rb != nil
+//@   ensures implies(result, all(x, uint32, !bhas(rb, x)))
+//@ assume func roaring.Bitmap.GetCardinality(rb)
+//@   requires rb != nil
+// number of documents of a segment, deleted or not (doc numbers are 32 bit)
+//@ uf segDocs(seg segment.Segment) uint64
+//@ assume func segment.Segment.Count(seg)
+//@   requires seg != nil
+//@   ensures result == segDocs(seg) && result <= 4294967296
+//@ assume func segment.Segment.AddRef(seg)
+//@   requires seg != nil
+//@ assume func segment.Segment.DocNumbers(seg, ids)
+//@   requires seg != nil
+//@   ensures implies(result1 == nil, result0 != nil)
+// a deleted bitmap is closed when it contains the nested children of each of its members
+//@ uf nestedClosed(seg segment.Segment, b *roaring.Bitmap) bool
+//@ assume func segment.NestedSegment.AddNestedDocuments(ns, deleted)
+//@   requires ns != nil
+//@   ensures nestedClosed(ns, result) && all(x, uint32, implies(bin(deleted, x), bin(result, x)))
+//@ assume func segment.PersistedSegment.Path(seg)
+//@ assume func filepath.Base(path)
+//@ assume func segment.FieldStatsReporter.UpdateFieldStats(fsr, stats)
+//@ assume func fmt.Errorf(format, a)
+
+// ---- helpers of the snapshot types (trusted: reference counting, sizes and statistics are not
+// what C01/C20 are about) ----
+//@ func SegmentSnapshot.Count
+//@   props C01
+//@   mode int
+//@   trusted relies on the data invariant 'deleted is a subset of the segment's documents' (cardinality arithmetic)
+//@   requires s != nil && s.segment != nil
+//@   ensures result <= segDocs(s.segment) && result <= 4294967296
+//@ func IndexSnapshot.AddRef
+//@   props C01
+//@   mode int
+//@   trusted reference counting under the snapshot's own mutex is not under contract
+//@   requires i != nil
+//@   modifies i.refs
+//@ func IndexSnapshot.DecRef
+//@   props C01
+//@   mode int
+//@   trusted reference counting / segment closing is not under contract
+//@   requires i != nil
+//@   modifies i.refs
+//@ func IndexSnapshot.updateSize
+//@   props C01
+//@   mode int
+//@   trusted size accounting is not under contract
+//@   requires i != nil
+//@   modifies i.size
+//@ func Scorch.unmarkIneligibleForRemoval
+//@   props C01
+//@   mode int
+//@   locks
+//@   trusted file removal bookkeeping (C12) is not under contract here
+//@   requires s != nil && !held(s.rootLock) && rheld(s.rootLock) == 0
+//@ func newFieldStats
+//@   props C01
+//@   mode int
+//@   trusted statistics are not under contract
+//@   ensures result != nil && fresh(result)
+//@ func newCachedMeta
+//@   props C01
+//@   mode int
+//@   trusted caches are not under contract
+//@   ensures result != nil && fresh(result)
+
+// ---- the root snapshot shape established by the introducer ----
+// offsets are the running document counts of the segments, starting at 0
+//@ spec runningOffsets(segs []*SegmentSnapshot, offs []uint64, n int) bool = implies(n > 0, offs[0] == 0) && forall(k, 0, n-1, offs[k+1] == offs[k] + segDocs(segs[k].segment))
+// every kept segment snapshot is well formed; the deleted bitmap of a segment with nested documents is closed
+//@ spec segsOKn(segs []*SegmentSnapshot, n int) bool = forall(k, 0, n, segs[k] != nil && segs[k].segment != nil && implies(typeis(segs[k].segment, segment.NestedSegment), nestedClosed(segs[k].segment, segs[k].deleted)))
+//@ spec rootShape(is *IndexSnapshot) bool = is != nil && len(is.offsets) == len(is.segment) && runningOffsets(is.segment, is.offsets, len(is.segment)) && segsOKn(is.segment, len(is.segment))
+
+//@ func Scorch.introduceSegment
+//@   props C01 C20 C08
+//@   mode int
+//@   locks
+//@   requires s != nil && next != nil && s.root != nil && !held(s.rootLock) && rheld(s.rootLock) == 0 && len(s.root.segment) <= 1048576
+//@   requires forall(k, 0, len(s.root.segment), s.root.segment[k] != nil && s.root.segment[k].segment != nil)
+//@   requires all(x, uint64, implies(in(x, next.obsoletes), next.obsoletes[x] != nil))
+//@   requires s.nextSnapshotEpoch < 4611686018427387904
+//@   modifies fields(Scorch), fields(IndexSnapshot), lock(s.rootLock), map(s.ineligibleForRemoval)
+//@   ensures !held(s.rootLock) && rheld(s.rootLock) == 0
+//@   ensures implies(result == nil, s.root != old(s.root) && rootShape(s.root) && s.root.epoch == old(s.nextSnapshotEpoch) && s.nextSnapshotEpoch == old(s.nextSnapshotEpoch) + 1)
+//@   ensures implies(result == nil && next.data != nil, len(s.root.segment) > 0 && s.root.segment[len(s.root.segment)-1].id == next.id && s.root.segment[len(s.root.segment)-1].segment == next.data && s.root.segment[len(s.root.segment)-1].deleted == nil)
+//@   ensures implies(result != nil, s.root == old(s.root))
+//@   loop 0: invariant s.root == old(s.root) && root == old(s.root) && newSnapshot != nil && fresh(newSnapshot) && !held(s.rootLock) && rheld(s.rootLock) == 0 && s.nextSnapshotEpoch == old(s.nextSnapshotEpoch)
+//@   loop 0: invariant len(newSnapshot.offsets) == len(newSnapshot.segment) && len(newSnapshot.segment) <= iter && (cap(newSnapshot.segment) == 0 || fresh(newSnapshot.segment)) && (cap(newSnapshot.offsets) == 0 || fresh(newSnapshot.offsets))
+//@   loop 0: invariant runningOffsets(newSnapshot.segment, newSnapshot.offsets, len(newSnapshot.segment)) && segsOKn(newSnapshot.segment, len(newSnapshot.segment))
+//@   loop 0: invariant implies(len(newSnapshot.segment) == 0, running == 0) && implies(len(newSnapshot.segment) > 0, running == newSnapshot.offsets[len(newSnapshot.segment)-1] + segDocs(newSnapshot.segment[len(newSnapshot.segment)-1].segment)) && running <= 4294967296 * iter
+//@   loop 0: invariant docsToPersistCount <= 4294967296 * iter && memSegments <= iter && fileSegments <= iter && newSnapshot.internal != nil
+//@   loop 1: invariant newSnapshot != nil && newSnapshot.internal != nil
+//@   loop 2: invariant newSnapshot != nil && newSnapshot.internal != nil
+//@   loop 3: invariant s != nil && !held(s.rootLock) && rheld(s.rootLock) == 0 && s.root == newSnapshot
